@@ -18,7 +18,7 @@ open Sidetree
 def handlers : List (String × (Json → Json)) :=
   [("window", Drv.window), ("jcs", Drv.jcs), ("num", Drv.num), ("mh", Drv.mh), ("commit", Drv.commit),
    ("validate", Drv.validate), ("origdoc", Drv.origdoc),
-   ("compose", Drv.compose), ("protect", Drv.protect), ("patchrt", Drv.patchrt),
+   ("compose", Drv.compose), ("protect", Drv.protect), ("patchrt", Drv.patchrt), ("ctor", Drv.ctor),
    ("parse", Drv.parseKind), ("getters", Drv.gettersKind), ("apply", Drv.applyKind),
    ("sign", Drv.signKind), ("jws", Drv.jwsKind), ("jwk", Drv.jwkKind), ("jwkparse", Drv.jwkParseKind),
    ("transform", Drv.transformKind), ("resolve", Drv.resolveKind), ("process", Drv.processKind), ("lifecycle", Drv.lifecycleKind), ("vdr", Drv.vdrKind), ("stress", Drv.stressKind), ("gtransform", Drv.gtransformKind), ("tinfo", Drv.tinfoKind)]
